@@ -39,7 +39,7 @@ class C18(PipelineCheck):
     PROBES = ('depth>=7', 'rounds>=2', 'timer_fired', 'erasure_transformed',
               'overwriting_transformed')
     MAX_DEPTH = (1, 9)
-    tiers = {'quick': {'runs': 420, 'wall_s': 100, 'run_timeout_s': 300},
+    tiers = {'quick': {'runs': 320, 'wall_s': 60, 'run_timeout_s': 300},
              'thorough': {'runs': 6000, 'wall_s': 1100, 'run_timeout_s': 900}}
 
     def before_run(self, run, sim, plan):
